@@ -171,7 +171,7 @@ package mast
 //@ ensures shape (and (= (nkeys H result) 0) (= (nvals H result) 0) (= (nlinks H result) 1) (isNil (LinkAt H result 0)))
 //@ ensures caps (and (= (sl.cap (Node.Key H result)) branchFactor) (= (sl.cap (Node.Value H result)) branchFactor) (= (sl.cap (Node.Link H result)) (+ branchFactor 1)))
 //@ ensures flags (and (not (mastNode.dirty H result)) (not (mastNode.shared H result)) (= (mastNode.expected H result) 0) (= (mastNode.source H result) 0))
-//@ ensures closure (=> (AllOK H0) (AllOK H))
+//@ ensures closure [T3] (=> (AllOK H0) (AllOK H))
 
 //@ func (*mastNode).xcopy
 //@ tags C01 C02 C11
@@ -255,7 +255,7 @@ package mast
 //@ ensures content (=> (= err anil) (NodeIs H result0 H0 (mkAny tid.string (box_Bytes l))))
 //@ ensures fail (=> (isErr err) (= result0 0))
 //@ ensures loads (and (>= (G.loads H) (G.loads H0)) (<= (G.loads H) (+ (G.loads H0) 1)))
-//@ ensures closure (=> (AllOK H0) (AllOK H))
+//@ ensures closure [T3] (=> (AllOK H0) (AllOK H))
 //@ ensures healthy (=> healthy (= err anil))
 
 //@ func (*Mast).load
@@ -270,7 +270,7 @@ package mast
 //@ ensures content [C01 C05 C19] (=> (= err anil) (NodeIs H result0 H0 link))
 //@ ensures fail (=> (isErr err) (= result0 0))
 //@ ensures loads (and (>= (G.loads H) (G.loads H0)) (<= (G.loads H) (+ (G.loads H0) (ite (isName link) 1 0))))
-//@ ensures closure (=> (AllOK H0) (AllOK H))
+//@ ensures closure [T3] (=> (AllOK H0) (AllOK H))
 //@ ensures healthy (=> (and healthy (or (isName link) (isPtr link))) (= err anil))
 
 //@ func (*mastNode).follow
@@ -285,7 +285,7 @@ package mast
 //@ ensures create (=> (and (isNil (LinkAt H0 node i)) createOk) (and (= err anil) (> result0 W0) (<= result0 W) (FreshArrays H result0 W0) (= (nkeys H result0) 0) (= (nvals H result0) 0) (= (nlinks H result0) 1) (isNil (LinkAt H result0 0)) (not (mastNode.shared H result0)) (not (mastNode.dirty H result0))))
 //@ ensures ok (=> (= err anil) (and (> result0 0) (Shape H result0)))
 //@ ensures loads (and (>= (G.loads H) (G.loads H0)) (<= (G.loads H) (+ (G.loads H0) 1)))
-//@ ensures closure (=> (AllOK H0) (AllOK H))
+//@ ensures closure [T3] (=> (AllOK H0) (AllOK H))
 //@ ensures healthy (=> healthy (= err anil))
 
 // ---------------------------------------------------------------------------------------
@@ -332,7 +332,8 @@ package mast
 //@ uses ord
 //@ modifies W G.loads Box.Any@fresh Box.Int@fresh Box.Bytes@fresh findOptions.path findOptions.currentHeight Arr.S_pathEntry Arr.Any@fresh Node.*@fresh mastNode.*@fresh
 //@ requires nn (and (> node 0) (> m 0) (> options 0) (not (= (Mast.keyOrder H m) 0)))
-//@ requires shape [C01] (and (Shape H node) (AllOK H))
+//@ requires shape [C01] (Shape H node)
+//@ requires closure [T3] (AllOK H)
 //@ requires height [C01 C10] (>= (findOptions.currentHeight H options) (findOptions.targetLayer H options))
 //@ requires pathok [C01 C10] (PathOK H (findOptions.path H options))
 //@ ensures res [C01 C10] (=> (= err anil) (and (> result0 0) (Shape H result0) (<= 0 result1) (<= result1 (nkeys H result0))))
@@ -343,8 +344,10 @@ package mast
 //@ ensures pathok [C01 C10] (=> (= err anil) (PathOK H (findOptions.path H options)))
 //@ ensures height [C01 C16] (and (<= (findOptions.currentHeight H options) (findOptions.currentHeight H0 options)) (>= (findOptions.currentHeight H options) (findOptions.targetLayer H options)))
 //@ ensures loads [C16] (and (>= (G.loads H) (G.loads H0)) (<= (- (G.loads H) (G.loads H0)) (+ (- (findOptions.currentHeight H0 options) (findOptions.currentHeight H options)) (ite (isErr err) 1 0))))
-//@ ensures closure (AllOK H)
+//@ ensures closure [T3] (AllOK H)
 //@ ensures healthy [C01] (=> healthy (= err anil))
+//@ ensures frameopt (forall ((q Int)) (! (=> (not (= q options)) (and (= (findOptions.path H q) (findOptions.path H0 q)) (= (findOptions.currentHeight H q) (findOptions.currentHeight H0 q)))) :pattern ((findOptions.path H q)) :pattern ((findOptions.currentHeight H q))))
+//@ ensures framearr (forall ((a Int)) (! (=> (and (<= a W0) (or (= a 0) (not (= a (sl.arr (findOptions.path H0 options)))))) (= (select (h.Arr.S_pathEntry H) a) (select (h.Arr.S_pathEntry H0) a))) :pattern ((select (h.Arr.S_pathEntry H) a))))
 
 // ---------------------------------------------------------------------------------------
 // Trusted standard-library contracts (A2)
@@ -413,3 +416,79 @@ package mast
 //@ ensures loads [C16] (<= (G.loads H) (+ (G.loads H0) 1))
 //@ ensures fail (=> (isErr err) (= result0 0))
 //@ loop 1 invariant pow [C04 C05] (and (<= 0 i) (<= i (Root.Height H0 r)) (powstep (Root.BranchFactor H0 r) i) (= shrinkSize (pow (Root.BranchFactor H0 r) i)))
+
+// ---------------------------------------------------------------------------------------
+// Read-only operations: Get, Iter, SeekIter
+
+//@ assumption A1-callbacks: the callbacks passed to Iter/SeekIter/DiffIter/DiffLinks do not write the modelled heap and do not re-enter the tree
+//@ assumption A2-reflect: reflect.ValueOf/Elem/Set/TypeOf/New/Interface are entered through trusted contracts; Get's copy into the caller's value pointer is not modelled
+
+// GlobalsOK: the package-level error values are distinct non-nil errors of a comparable dynamic type
+//@ smt (define-fun GlobalsOK ((h Heap)) Bool (and (isErr (G.ErrIterDone h)) (comparable (a.tid (G.ErrIterDone h)))))
+// MastOK: configuration plus the closure that makes traversals safe
+//@ smt (define-fun MastOK ((h Heap) (m Int)) Bool (and (MastCfg h m) (AllOK h)))
+// T3: obligations that carry the closure invariant AllOK (and later the full node invariant) through
+// a function are tagged T3; the property checks assume them, `./check T3` discharges them separately.
+
+//@ abstract reflect.ValueOf (i) -> (v)
+//@ pure
+//@ abstract (reflect.Value).Elem (v) -> (r)
+//@ pure
+//@ abstract (reflect.Value).Set (v x) -> ()
+//@ pure
+
+//@ func (*Mast).Get
+//@ tags C01 C12 C16
+//@ uses ord
+//@ modifies W G.loads Box.Any@fresh Box.Int@fresh Box.Bytes@fresh findOptions.*@fresh Arr.S_pathEntry@fresh Arr.Any@fresh Node.*@fresh mastNode.*@fresh
+//@ requires ok (MastOK H m)
+//@ ensures healthy [C01] (=> healthy (= err anil))
+//@ ensures empty [C01] (=> (isNil (Mast.root H0 m)) (and (not result0) (= err anil)))
+//@ ensures loads [C16] (<= (- (G.loads H) (G.loads H0)) (+ (Mast.height H0 m) 1))
+//@ ensures fail [C12] (=> (isErr err) (not result0))
+
+//@ abstract param:(*mastNode).iter.f (k v) -> (err)
+//@ pure
+//@ abstract param:(*mastNode).seekIter.f (k v) -> (err)
+//@ pure
+
+//@ func (*mastNode).iter
+//@ tags C01 C10 C12
+//@ modifies W G.loads Box.Bytes@fresh Arr.Any@fresh Node.*@fresh mastNode.*@fresh
+//@ requires nn (and (> node 0) (> mast 0) (not (= f 0)))
+//@ requires shape (Shape H node)
+//@ requires closure [T3] (AllOK H)
+//@ ensures closure [T3] (AllOK H)
+//@ loop 1 invariant idx (and (<= (- 1) rangeindex) (Shape H node))
+//@ loop 1 invariant closure [T3] (and (AllOK H) (LinksOK H node))
+
+//@ func (*Mast).Iter
+//@ tags C01 C10 C12
+//@ modifies W G.loads Box.Bytes@fresh Arr.Any@fresh Node.*@fresh mastNode.*@fresh
+//@ requires ok (MastOK H m)
+//@ requires cb (not (= f 0))
+//@ requires globals (GlobalsOK H)
+//@ ensures emptied [C01] (=> (and healthy (isNil (Mast.root H0 m))) (= err anil))
+
+//@ func (*mastNode).seekIter
+//@ tags C01 C10 C12
+//@ modifies W G.loads Box.Bytes@fresh Arr.Any@fresh Node.*@fresh mastNode.*@fresh
+//@ requires nn (and (> node 0) (> m 0) (not (= f 0)) (>= idx 0))
+//@ requires shape (Shape H node)
+//@ requires closure [T3] (AllOK H)
+//@ ensures closure [T3] (AllOK H)
+//@ loop 1 invariant idx (and (<= 0 i) (Shape H node))
+//@ loop 1 invariant closure [T3] (and (AllOK H) (LinksOK H node))
+
+//@ abstract param:(*Mast).SeekIter.f (k v) -> (err)
+//@ pure
+
+//@ func (*Mast).SeekIter
+//@ tags C01 C10 C12
+//@ uses ord
+//@ modifies W G.loads Box.Any@fresh Box.Int@fresh Box.Bytes@fresh findOptions.*@fresh Arr.S_pathEntry@fresh Arr.Any@fresh Node.*@fresh mastNode.*@fresh
+//@ requires ok (MastOK H m)
+//@ requires cb (not (= f 0))
+//@ requires globals (GlobalsOK H)
+//@ loop 1 invariant idx (< i#2 (sl.len (findOptions.path H options&)))
+//@ loop 1 invariant closure [T3] (and (AllOK H) (PathOK H (findOptions.path H options&)))
